@@ -4,9 +4,9 @@ package main
 
 import (
 	"fmt"
-	"os"
 	"go/token"
 	"go/types"
+	"os"
 	"strconv"
 	"strings"
 
@@ -177,6 +177,12 @@ func init() {
 			// same backing array: overlapping capacity windows
 			return e.tb.Bool(x.Off < y.Off+y.Cap && y.Off < x.Off+x.Cap), nil
 		},
+		"verifAnd": func(e *Exec, fn *ssa.Function, a []Value) (Value, *GoPanic) {
+			return e.tb.And(a[0].(*Term), a[1].(*Term)), nil
+		},
+		"verifOr": func(e *Exec, fn *ssa.Function, a []Value) (Value, *GoPanic) {
+			return e.tb.Or(a[0].(*Term), a[1].(*Term)), nil
+		},
 		"verifAllocBytes": func(e *Exec, fn *ssa.Function, a []Value) (Value, *GoPanic) {
 			return e.tb.Const(64, uint64(e.alloc)), nil
 		},
@@ -330,9 +336,16 @@ func init() {
 			e.store(a[0].(*Ptr), a[1])
 			return nil, nil
 		},
-		"time.After": timeAfter,
-		"time.Now":   timeNow,
-		"time.Since": timeSince,
+		"internal/bytealg.MakeNoZero": func(e *Exec, fn *ssa.Function, a []Value) (Value, *GoPanic) {
+			n := e.argInt(a[0])
+			return e.newSlice(types.Typ[types.Uint8], n, n), nil
+		},
+		"internal/bytealg.IndexByte":       bytesIndexByte,
+		"internal/bytealg.IndexByteString": stringsIndexByte,
+		"internal/bytealg.IndexString":     stringsIndex,
+		"time.After":                       timeAfter,
+		"time.Now":                         timeNow,
+		"time.Since":                       timeSince,
 	}
 }
 
